@@ -203,6 +203,10 @@ var lockHolders = []struct{ Op, Hook string }{
 	{"bindreq", "AddBinding.inserted"}, {"subreq", "AddSubscription.inserted"}, {"subreq", "Events.snapshot"}, {"bindreq", "Events.snapshot"},
 	{"verdict", "ApproveOrDenyWrite.afterStop"}, {"verdict", "Events.snapshot"}, {"usecase", "UseCase.beforeStore"}, {"hbstart", "StartHeartbeat.afterMake"},
 	{"disconnect", "Events.snapshot"}, {"entrem", "Events.snapshot"}, {"write", "Events.snapshot"}, {"reply", "Events.snapshot"},
+	// inside the removals, right after the filtered registry was stored (the registry lock is held there), and in the
+	// local tree operations (behind the entity's clean-up; between insertion and announcement)
+	{"unbind", "RemoveBinding.stored"}, {"unsub", "RemoveSubscription.stored"}, {"disconnect", "RemoveBindingsForEntity.stored"},
+	{"entrem", "RemoveSubscriptionsForEntity.stored"}, {"rementity", "RemoveEntity.cleaned"}, {"addentity", "AddEntity.appended"},
 }
 
 func waitDone(c chan string, d time.Duration) (string, bool) {
@@ -338,6 +342,7 @@ func probeOne(topo *Topo, holder, hook, other string) LockLine {
 
 func stressOne(topo *Topo, seed int64) LockLine {
 	line := LockLine{Kind: "stress"}
+	spine.VerifTraceMark(fmt.Sprint("stress ", seed))
 	l := newLockSUT(topo, false)
 	var wg sync.WaitGroup
 	var mu sync.Mutex
